@@ -155,6 +155,15 @@ def check_doc(workdir, lang, text, findings, counters):
         counters["diagnostics"] += len(diags)
         # probe code actions at every position of every line
         lines = text.split("\n")
+        # a large document is probed around its diagnostics only (every request makes the server lint the whole text)
+        only = None
+        if len(text) > 1500:
+            only = set()
+            for d in diags:
+                a0 = position_to_index(text, d["range"]["start"]["line"], d["range"]["start"]["character"])
+                b0 = position_to_index(text, d["range"]["end"]["line"], d["range"]["end"]["character"])
+                if a0 is not None and b0 is not None:
+                    only.update(range(max(0, a0 - 1), min(len(text), b0 + 1) + 1))
         lints = {}  # (start, end, message) -> lint
         at_pos = {}  # char index -> set of lint keys returned there
         edits_of = {}  # lint key -> list of TextEdit lists in order
@@ -163,6 +172,10 @@ def check_doc(workdir, lang, text, findings, counters):
             col = 0
             for k in range(len(line) + 1):
                 pos_idx = idx + k
+                if only is not None and pos_idx not in only:
+                    if k < len(line):
+                        col += client.utf16_len(line[k])
+                    continue
                 acts = s.code_actions(uri, ln, col)
                 probes += 1
                 keys_here = set()
@@ -249,6 +262,13 @@ def run(tier, seed, scale, verif):
              ("plaintext", "\U0001F600" * 10 + " and and\n"), ("plaintext", "ok\n\U0001D400\U0001D401\U0001D402\U0001D403\U0001D404\U0001D405 is is"),
              ("plaintext", "Fine line.\nWe saw a tset"), ("plaintext", "\ufeffThis is the the test.\nAnd a tset.\n"), ("markdown", "\ufeffteh start\n"), ("rust", "\ufeff// We saw a tset.\nfn main() {}\n"), ("plaintext", "teh"), ("markdown", "\U0001F600 teh end\r\n\r\nan apple and a apple"),
              ("plaintext", "We saw a tset.\n\n\nthe the end\n"), ("rust", "// teh cat\nfn main() {}\n// an apple and a apple")]
+    # long documents with many lints, astral characters directly before / behind / inside the flagged words
+    for _ in range(2 if tier == "quick" else 40):
+        big = []
+        for _ in range(rng.randint(45, 70)):
+            w = rng.choice(["teh", "wrold", "recieve", "tset"])
+            big.append(rng.choice(["We saw a %s\U0001F600 here.", "\U0001F600%s is what it said.", "It was the \U0001D400%s\U0001D401, they said.", "A plain line with a %s in it.", "Two\U0001F600 %s\U0001F389 marks and and more."]) % w)
+        docs.append((rng.choice(["plaintext", "markdown"]), rng.choice(["\n", "\n\n", "\r\n"]).join(big) + "\n"))
     base = os.path.join(verif, "target", "run", "c08")
     shutil.rmtree(base, ignore_errors=True)
     findings_all = []
